@@ -3,6 +3,7 @@ import HeimdallModel.Lemmas.SignerStore
 import HeimdallModel.Lemmas.SignerConc
 import HeimdallModel.Lemmas.SignerEdges
 import HeimdallModel.Lemmas.SignerCache
+import HeimdallModel.Lemmas.SignerTime
 import HeimdallModel.Model.SignerProtocol
 import HeimdallModel.Gen.Signer
 /-!
@@ -11,8 +12,10 @@ import HeimdallModel.Gen.Signer
 Model: `Model/Signer.lean` (key store, `load`, `Sign`, publication; cryptography and X.509 opaque),
 `Model/SignerConc.lean` (token creation, key-set reads and reloads as a small-step machine, any number of threads),
 `Model/SignerCache.lean` (the token cache of `Execute`, shared by the catalogue finalizer, its rule-level variants and
-every other jwt finalizer).  Specification: `Spec/Signer.lean`, `Spec/SignerCache.lean`.  The first group of theorems ties the machine to the current source: they are stated about
-`Gen/Signer.lean`, which `/verif/extract/signer` regenerates from `jwt_signer.go` on every run.
+every other jwt finalizer), `Model/SignerTime.lean` (the clock: certificates are judged at the instant of a load,
+`Keys()` does not read it).  Specification: `Spec/Signer.lean`, `Spec/SignerCache.lean`, `Spec/SignerTime.lean`.  The
+first group of theorems ties the machine to the current source: they are stated about `Gen/Signer.lean`, which
+`/verif/extract/signer` regenerates from `jwt_signer.go` on every run.
 -/
 namespace Heimdall.Props.C16
 open Heimdall Heimdall.Signer Heimdall.SignerConc Heimdall.SignerProtocol
@@ -610,5 +613,182 @@ example :
     seen (executeDuring noRender (run noRender world0 h1) (at_ 3 proto alice) fileB)
       = some ⟨.cached, "a", some (.num 0), some (.num 600)⟩ := by
   decide
+
+/-! ## Time: certificates run out, the published key does not
+
+`load` judges the certificates of a key store at the instant of the load (`loadAt`: construction and every
+`OnChanged`); `Keys()` does not read the clock (`keysAt`).  When the certificate of the signing key — or the one of
+its issuing CA — runs out while the process is up, the signer keeps signing with the key **and keeps publishing it**
+until a reload succeeds; a reload of a file with a certificate outside its period is refused and changes nothing.
+What the property demands (`Spec/SignerTime.lean`): a token verifies against the set published at any instant at or
+after its issue while the signer still works with the key.  Refusing to sign with an expired certificate would be
+another behaviour consistent with that (`c16_refusing_to_sign_when_expired_is_consistent`); signing with a key that
+is no longer listed is the violation (`c16_dropping_expired_keys_violates`). -/
+
+/-- **The published list is a function of the load generation only**: whenever `Keys()` is called it answers with
+the list the last successful load installed -/
+theorem c16_keys_independent_of_time (ci : CertInfo) (st : State) (now now' : Int) :
+    keysAt ci st now = st.pubKeys ∧ keysAt ci st now = keysAt ci st now' := by
+  simp [keysAt_eq]
+
+/-- the same for the endpoint: the concatenation of the key holders' lists as loaded, at every instant -/
+theorem c16_published_independent_of_time (ci : CertInfo) (holders : List State) (now now' : Int) :
+    publishedAt ci holders now = published holders ∧ publishedAt ci holders now = publishedAt ci holders now' := by
+  simp [publishedAt_eq]
+
+/-- **A published key does not expire.**  The signer is constructed from any key store file at any instant; any
+history of reload attempts follows, each at its own instant (successful, refused — also because a certificate has run
+out by then —, of any file); a token is handed out at some point of the history (`pre`: what happened before), the
+history goes on (`post`).  If the generation the signer works with afterwards still lists the key of the token under
+its id (`KeyKept`: no reload replaced the key — in particular if there was no reload, or none succeeded), the token
+verifies against the list published at **every** instant: no bound on the time that passes, and whatever the validity
+periods of the certificates in the store say (`ci` is arbitrary).  In particular from its issue on (`VerifiesFrom`). -/
+theorem c16_published_key_does_not_expire (ci : CertInfo) (keyID : String) (f0 : TimedFile) (t0 : Int) (st0 : State)
+    (h0 : loadAt ci keyID f0 t0 = some st0) (pre post : List (Int × TimedFile)) (i : SignIn) (custom : Claims α)
+    (hk : KeyKept (runClock ci keyID st0 pre) (runClock ci keyID st0 (pre ++ post))) :
+    (∀ instant : Int, verifiesFirst (keysAt ci (runClock ci keyID st0 (pre ++ post)) instant)
+      (sign (runClock ci keyID st0 pre) i custom) = true) ∧
+    VerifiesFrom (keysAt ci (runClock ci keyID st0 (pre ++ post))) (sign (runClock ci keyID st0 pre) i custom)
+      i.nowNs := by
+  have hc0 := loadAt_consistent ci keyID f0 t0 st0 h0
+  have hall : ∀ instant : Int, verifiesFirst (keysAt ci (runClock ci keyID st0 (pre ++ post)) instant)
+      (sign (runClock ci keyID st0 pre) i custom) = true := by
+    intro instant
+    rw [keysAt_eq]
+    exact verifiesFirst_of_kept _ _ (runClock_consistent ci keyID st0 pre hc0)
+      (runClock_consistent ci keyID st0 (pre ++ post) hc0) hk i custom
+  exact ⟨hall, fun later _ => hall later⟩
+
+/-- at the endpoint, next to any other key holders: some key published at every instant, under the token's id and
+algorithm, verifies it -/
+theorem c16_registry_published_key_does_not_expire (ci : CertInfo) (holders : List State) (issuing current : State)
+    (hm : current ∈ holders) (hi : Consistent issuing) (hc : Consistent current) (hk : KeyKept issuing current)
+    (i : SignIn) (custom : Claims α) (instant : Int) :
+    verifiesAny (publishedAt ci holders instant) (sign issuing i custom) = true := by
+  rw [publishedAt_eq]
+  obtain ⟨j, hj, hkid, hpub⟩ := hk
+  apply verifiesAny_of_mem _ j
+  · exact List.mem_flatMap.mpr ⟨current, hm, hj⟩
+  · have halg : j.alg = issuing.jwk.alg := by
+      have h1 := (hc.all_sig j hj).2
+      rw [hpub, hi.alg_of_key] at h1
+      exact (Option.some.inj h1).symm
+    show verifiesWith j (signWith issuing.jwk issuing.key i custom) = true
+    simp [verifiesWith, signWith, hkid, halg, hpub]
+
+/-- a reload is refused, and changes nothing, when any certificate of the file — the leaf of the signing key, the CA
+that issued it, a certificate of another key block — is outside its validity period at the instant of the reload -/
+theorem c16_reload_with_expired_certificate_changes_nothing (ci : CertInfo) (keyID : String) (st : State)
+    (raw : List TimedEntry) (now : Int) (e : TimedEntry) (he : e ∈ raw) (c : Cert) (hc : c ∈ e.chain)
+    (hv : c.validAt ci now = false) :
+    loadAt ci keyID (some raw) now = none ∧ reloadOn ci keyID st (now, some raw) = st := by
+  have h := loadAt_none_of_invalid_cert ci keyID raw now e he c hc hv
+  refine ⟨h, ?_⟩
+  unfold loadAt at h
+  simp [reloadOn, reload, h]
+
+/-- so: while every reload attempt is refused — the file did not change and its certificate has run out, the file is
+broken, ... — tokens issued before and after keep verifying against what is published, at every instant -/
+theorem c16_token_verifies_while_reloads_are_refused (ci : CertInfo) (keyID : String) (f0 : TimedFile) (t0 : Int)
+    (st0 : State) (h0 : loadAt ci keyID f0 t0 = some st0) (pre post : List (Int × TimedFile))
+    (hr : ∀ ev ∈ post, loadAt ci keyID ev.2 ev.1 = none) (i : SignIn) (custom : Claims α) (instant : Int) :
+    runClock ci keyID st0 (pre ++ post) = runClock ci keyID st0 pre ∧
+    verifiesFirst (keysAt ci (runClock ci keyID st0 (pre ++ post)) instant)
+      (sign (runClock ci keyID st0 pre) i custom) = true := by
+  have hsame : runClock ci keyID st0 (pre ++ post) = runClock ci keyID st0 pre := by
+    rw [runClock_append, runClock_refused ci keyID _ post hr]
+  refine ⟨hsame, ?_⟩
+  have hc := runClock_consistent ci keyID st0 pre (loadAt_consistent ci keyID f0 t0 st0 h0)
+  exact (c16_published_key_does_not_expire ci keyID f0 t0 st0 h0 pre post i custom
+    (by rw [hsame]; exact keyKept_refl _ hc)).1 instant
+
+/-! ### witnesses: a key store whose leaf certificate runs out 3 s after the start, one whose CA does -/
+
+/-- certificate 7: valid for the first three seconds; certificate 8 (a renewal) and all others: for long -/
+def ciW : CertInfo := fun cid => if cid = 7 then ⟨0, 3000000000⟩ else ⟨0, 1000000000000000000⟩
+def sec (n : Int) : Int := n * 1000000000
+/-- key `k2` under the id `sig`, certified by the short-lived certificate 7 -/
+def fileLeaf : TimedFile := some [⟨"sig", k2, [⟨7, ""⟩], true, true⟩]
+/-- the same key and id with the renewed certificate 8 -/
+def fileRenewed : TimedFile := some [⟨"sig", k2, [⟨8, ""⟩], true, true⟩]
+/-- key `k2` with a long-lived leaf (9) issued by the short-lived CA certificate 7 -/
+def fileCA : TimedFile := some [⟨"sig", k2, [⟨9, ""⟩, ⟨7, ""⟩], true, true⟩]
+/-- another key under another id -/
+def fileOther : TimedFile := some [⟨"next", k1, [], true, true⟩]
+
+/-- the stores load while the certificates are valid and are refused afterwards — leaf and CA alike -/
+example : (loadAt ciW "" fileLeaf (sec 0)).isSome = true ∧ loadAt ciW "" fileLeaf (sec 4) = none ∧
+    (loadAt ciW "" fileCA (sec 2)).isSome = true ∧ loadAt ciW "" fileCA (sec 4) = none ∧
+    (loadAt ciW "" fileRenewed (sec 4)).isSome = true := by decide
+
+/-- hypotheses of `c16_reload_with_expired_certificate_changes_nothing`: the CA certificate of `fileCA` at second 4 -/
+example : (⟨7, ""⟩ : Cert) ∈ [(⟨9, ""⟩ : Cert), ⟨7, ""⟩] ∧ Cert.validAt ciW (sec 4) ⟨7, ""⟩ = false := by decide
+
+/-- `KeyKept` across a refused reload of the expired file and across a reload to the renewed certificate (another
+published JWK: other `x5c`, same key and id); not across a reload to another key -/
+example : ∃ st0, loadAt ciW "" fileLeaf (sec 0) = some st0 ∧
+    KeyKept st0 (runClock ciW "" st0 [(sec 4, fileLeaf)]) ∧
+    KeyKept st0 (runClock ciW "" st0 [(sec 4, fileLeaf), (sec 5, fileRenewed)]) ∧
+    (runClock ciW "" st0 [(sec 5, fileRenewed)]).pubKeys ≠ st0.pubKeys ∧
+    ¬ KeyKept st0 (runClock ciW "" st0 [(sec 5, fileOther)]) := by
+  refine ⟨⟨⟨"sig", "ES512", "sig", k2.pub, [⟨7, ""⟩]⟩, k2, [⟨"sig", "ES512", "sig", k2.pub, [⟨7, ""⟩]⟩]⟩, by decide,
+    ⟨⟨"sig", "ES512", "sig", k2.pub, [⟨7, ""⟩]⟩, by decide, rfl, rfl⟩,
+    ⟨⟨"sig", "ES512", "sig", k2.pub, [⟨8, ""⟩]⟩, by decide, rfl, rfl⟩, by decide, ?_⟩
+  rintro ⟨j, hj, hkid, _⟩
+  have : (runClock ciW "" ⟨⟨"sig", "ES512", "sig", k2.pub, [⟨7, ""⟩]⟩, k2, [⟨"sig", "ES512", "sig", k2.pub, [⟨7, ""⟩]⟩]⟩
+      [(sec 5, fileOther)]).pubKeys = [⟨"next", "PS384", "sig", k1.pub, []⟩] := by decide
+  rw [this] at hj
+  simp only [List.mem_singleton] at hj
+  subst hj
+  simp at hkid
+
+/-- what is observed over time on the witness store (signed and asked at the same instant): before the expiry, after
+it, after a refused reload of the same file, after the renewal — published ids and the verdict for a fresh token -/
+example :
+    (loadAt ciW "" fileLeaf (sec 0)).map (fun st0 =>
+      [sec 1, sec 4, sec 1000000].map (fun now =>
+        ((keysAt ciW st0 now).map (·.kid), verifiesFirst (keysAt ciW st0 now) (sign st0 ⟨"alice", "heimdall", now, sec 60⟩ ([] : Claims Nat)))))
+      = some [(["sig"], true), (["sig"], true), (["sig"], true)] ∧
+    (loadAt ciW "" fileLeaf (sec 0)).map (fun st0 =>
+      let st := runClock ciW "" st0 [(sec 4, fileLeaf), (sec 5, fileRenewed)]
+      (st.pubKeys.map (·.certs), verifiesFirst (keysAt ciW st (sec 6)) (sign st0 ⟨"alice", "heimdall", sec 1, sec 60⟩ ([] : Claims Nat))))
+      = some ([[⟨8, ""⟩]], true) := by decide
+
+/-- alice's token, valid for a minute, signed by the generation `st` at second `n` -/
+def tokenAt (st : State) (n : Int) : Token Nat := sign st ⟨"alice", "heimdall", sec n, sec 60⟩ []
+
+/-- **The negative: a published key must not be dropped when its certificate runs out.**  With `Keys()` leaving out
+keys whose leaf certificate is past `NotAfter` at the call (`dropExpired`, the seeded change) while `load` judges the
+certificate at load time only: the signer is constructed at second 0 from a store whose certificate is valid until
+second 3; at second 4 it still signs with the key and names its id, but the published list is empty — the token does
+not verify (nor does the one issued at second 1, still valid for a minute).  With the code's `Keys()` both verify;
+while the certificate is valid the two variants agree. -/
+theorem c16_dropping_expired_keys_violates :
+    (loadAt ciW "" fileLeaf (sec 0)).map (fun st =>
+      ((tokenAt st 4).kid, (tokenAt st 4).signedBy, (keysAtK dropExpired ciW st (sec 4)).map (·.kid),
+       [tokenAt st 4, tokenAt st 1].map (verifiesFirst (keysAtK dropExpired ciW st (sec 4))),
+       [tokenAt st 4, tokenAt st 1].map (verifiesFirst (keysAt ciW st (sec 4)))))
+    = some ("sig", k2, [], [false, false], [true, true]) ∧
+    (loadAt ciW "" fileLeaf (sec 0)).map (fun st =>
+      ((keysAtK dropExpired ciW st (sec 2)).map (·.kid), verifiesFirst (keysAtK dropExpired ciW st (sec 2)) (tokenAt st 1)))
+    = some (["sig"], true) := by
+  decide
+
+/-- **The other consistent behaviour**: a signer that refuses to sign while a certificate of its active key is
+outside its period hands out fewer tokens, and every token it does hand out is the one `Sign` makes — so it verifies
+against the published list at every instant like any other.  (Not what the code does: it keeps signing.) -/
+theorem c16_refusing_to_sign_when_expired_is_consistent (ci : CertInfo) (st : State) (hc : Consistent st)
+    (i : SignIn) (custom : Claims α) (t : Token α) (h : signIfValid ci st i custom = some t) (instant : Int) :
+    t = sign st i custom ∧ verifiesFirst (keysAt ci st instant) t = true := by
+  unfold signIfValid at h
+  split at h
+  · cases h
+    exact ⟨rfl, by rw [keysAt_eq]; exact verifiesFirst_of_consistent st hc i custom⟩
+  · cases h
+
+/-- it signs before the expiry and refuses after it -/
+example : (loadAt ciW "" fileLeaf (sec 0)).map (fun st =>
+    ((signIfValid ciW st ⟨"alice", "heimdall", sec 1, sec 60⟩ ([] : Claims Nat)).isSome,
+     (signIfValid ciW st ⟨"alice", "heimdall", sec 4, sec 60⟩ ([] : Claims Nat)).isSome)) = some (true, false) := by decide
 
 end Heimdall.Props.C16
